@@ -72,6 +72,20 @@ func (v Val) build() any {
 			}
 		}
 		return out
+	case "rawjson":
+		// JSON text produced elsewhere (an upstream API body, a database column, an encoder with
+		// SetEscapeHTML(false)): '<', '>', '&' and U+2028/9 are not escaped in it
+		var inner any
+		if len(v.Items) > 0 {
+			inner = v.Items[0].build()
+		}
+		var buf bytes.Buffer
+		enc := json.NewEncoder(&buf)
+		enc.SetEscapeHTML(false)
+		if err := enc.Encode(inner); err != nil {
+			return nil
+		}
+		return json.RawMessage(bytes.TrimSpace(buf.Bytes()))
 	case "nan":
 		return math.NaN()
 	case "inf":
@@ -113,7 +127,7 @@ type Case struct {
 
 var rec = ev.New("C03", "c03.positions",
 	"compiled fixtures for every JavaScript position (bare {{ }}, inside '…', \"…\", `…`, a script with comments/quotes/escapes around several expressions, script template in on* attribute and as component, templ.JSFuncCall in attribute and as component with generated function names, JSON script element) are rendered with generated Go values "+
-		"(strings over a JS/HTML-adversarial alphabet, every scalar value as a one-rune string in the thorough tier, invalid UTF-8, ints, finite floats, bools, nil, nested slices/maps/structs, and values without a JSON encoding - NaN, Inf, structs holding a channel/func or NaN next to a string - for which only oracle 1 and the sentinel part of oracle 2 apply); oracle 1: HTML5 tokenizer sees the same structure as for a benign value (script element = one text token, on* attribute = one attribute); "+
+		"(strings over a JS/HTML-adversarial alphabet, every scalar value as a one-rune string in the thorough tier, invalid UTF-8, ints, finite floats, bools, nil, nested slices/maps/structs, json.RawMessage values whose text was encoded without HTML escaping, and values without a JSON encoding - NaN, Inf, structs holding a channel/func or NaN next to a string - for which only oracle 1 and the sentinel part of oracle 2 apply); oracle 1: HTML5 tokenizer sees the same structure as for a benign value (script element = one text token, on* attribute = one attribute); "+
 		"oracle 2: V8 evaluates the emitted script bodies and decoded attribute values: no syntax error or exception, no sentinel (alert/pwn) call, and the values reaching cap() equal JSON.stringify(JSON.parse(<Go's JSON encoding>)) computed in the same engine (the original string for in-literal positions). "+
 		"Non-trivial = the value contains a JS- or HTML-sensitive character; distinct by (position, value)")
 
@@ -382,11 +396,13 @@ func init() {
 
 func genVal(depth int) *rapid.Generator[Val] {
 	return rapid.Custom(func(t *rapid.T) Val {
-		k := rapid.IntRange(0, 12).Draw(t, "kind")
+		k := rapid.IntRange(0, 13).Draw(t, "kind")
 		if depth <= 0 && k >= 8 && k != 12 {
 			k = 0
 		}
 		switch {
+		case k == 13:
+			return Val{Kind: "rawjson", Items: []Val{genVal(depth - 1).Draw(t, "rawinner")}}
 		case k == 12:
 			// values encoding/json refuses, alone or carrying a string
 			switch rapid.IntRange(0, 4).Draw(t, "unencodable") {
@@ -469,6 +485,10 @@ func TestPropPositions(t *testing.T) {
 			c.V = Val{Kind: "string", S: ev.QStr(sgen.JSString().Draw(t, "sv"))}
 		} else {
 			c.V = genVal(2).Draw(t, "v")
+		}
+		if !stringOnly(c.Pos) && rapid.IntRange(0, 7).Draw(t, "wrapRaw") == 0 {
+			// the value arrives as pre-encoded JSON text
+			c.V = Val{Kind: "rawjson", Items: []Val{c.V}}
 		}
 		c.S = ev.QStr(sgen.JSString().Draw(t, "s"))
 		if c.Pos == "on-attr-func" || c.Pos == "call-func" {
